@@ -57,7 +57,12 @@ def build(s: DScn):
     for st, obj in zip(s.states, states):
         ns[st.id] = obj
     by_attr = {}
+    any_done = set()
     for t in s.trans:
+        if getattr(t, "any_group", 0):
+            if t.any_group in any_done:
+                continue
+            any_done.add(t.any_group)
         kw = {}
         if t.events:
             kw["event"] = list(t.events) if t.event_as_list else " ".join(t.events)
@@ -70,7 +75,10 @@ def build(s: DScn):
         v = inline(t.on)
         if v:
             kw["on"] = v
-        tl = states[t.src].to(states[t.tgt], **kw)
+        if getattr(t, "any_group", 0):
+            tl = states[t.tgt].from_.any(**kw)
+        else:
+            tl = states[t.src].to(states[t.tgt], **kw)
         if t.attr:
             by_attr[t.attr] = (by_attr[t.attr] | tl) if t.attr in by_attr else tl
     for a, tl in by_attr.items():
